@@ -48,6 +48,8 @@ class PathState:
         self.symbols = {}        # name -> z3 const (for model extraction)
         self.notes = {}
         self.steps = 0
+        self.decided = {}        # id of a decided condition -> its truth on this path
+        self.keep = []           # keeps the decided conditions alive (ids are only unique while alive)
 
     # -- fresh symbols -----------------------------------------------------------------
     def fresh_name(self, base):
@@ -134,6 +136,15 @@ class PathState:
             return True
         if z3.is_false(cond):
             return False
+        # a condition already decided on this path needs neither the solver nor a new decision
+        cid = cond.get_id()
+        known = self.decided.get(cid)
+        if known is not None:
+            return known
+        if z3.is_not(cond):
+            k2 = self.decided.get(cond.arg(0).get_id())
+            if k2 is not None:
+                return not k2
         if self.idx < len(self.prefix):
             d = self.prefix[self.idx]
         else:
@@ -153,6 +164,8 @@ class PathState:
         c = cond if d else z3.Not(cond)
         self.pc.append(c)
         self.solver.add(c)
+        self.decided[cid] = d
+        self.keep.append(cond)
         if d:
             self.learn_domains(c)
         return d
@@ -162,6 +175,25 @@ class PathState:
         if isinstance(cond, bool):
             return cond
         return self.check(z3.Not(cond)) == z3.unsat
+
+    def forced_int(self, expr):
+        """the single value the whole path condition (lazy facts included) allows for an int
+        expression, or None"""
+        s = z3.Solver()
+        s.set('timeout', 10000)
+        s.add(*self.pc)
+        if s.check() != z3.sat:
+            if s.check() == z3.unsat:
+                raise Infeasible()
+            return None
+        n = s.model().eval(expr, model_completion=True)
+        if not z3.is_int_value(n):
+            return None
+        n = n.as_long()
+        s.add(expr != n)
+        if s.check() == z3.unsat:
+            return n
+        return None
 
     def add_vc(self, name, kind, goal, info=None):
         self.vcs.append(VC(name, kind, self.pc, goal, info))
